@@ -11,6 +11,10 @@ VARIABLES tid, l, err
 tvars == <<tid, l, err>>
 
 (* band (B2): the geometry went through a rotation by a float angle *)
+(* finer lattice of an event (draw cases): points and polygons are given in units of 1/(2 sc), shapes in doubled coordinates *)
+Sc(e) == IF "sc" \in DOMAIN e THEN e.sc ELSE 1
+Sh(e, s) == ScaleShape(s, Sc(e))
+Obs(e) == [k \in DOMAIN e.obs |-> [id |-> e.obs[k].id, occ |-> IF e.obs[k].occ = <<>> THEN <<>> ELSE <<Sh(e, e.obs[k].occ[1])>>]]
 Noisy(e) == \E i \in DOMAIN e.routes : e.routes[i].r = "translate_rotate" /\ e.routes[i].a[3] % 4 # 0
 KindName(s) == CASE s.k = "rect" -> "rectangle" [] s.k = "disc" -> "circle" [] s.k = "poly" -> "polygon" [] s.k = "group" -> "group"
 Bits(q) == \A k \in DOMAIN q : q[k] \in {0, 1}
@@ -21,10 +25,10 @@ Named(base, disc, okHalf) == IF disc /\ okHalf THEN base \o "/half-radius" ELSE 
 (* band (B3): lanelets touched by deferred steps since the last rebuild may or may not be reported *)
 ByPosOk(e) == /\ Len(e.res) = Len(e.pts)
               /\ \A k \in DOMAIN e.pts : SetOkP(e.res[k], e.polys, LAMBDA P : PosRel(P, e.pts[k], Noisy(e)), Pending(e.routes))
-ByShapeOk(e, h) == SetOkP(e.res, e.polys, LAMBDA P : ShapeRelH(P, e.shape, Noisy(e), h), Pending(e.routes))
+ByShapeOk(e, h) == SetOkP(e.res, e.polys, LAMBDA P : ShapeRelH(P, Sh(e, e.shape), Noisy(e), h), Pending(e.routes))
 ContPtsOk(e) == /\ Len(e.res) = Len(e.pts) /\ Bits(e.res) /\ e.lid \in Ids(e.polys)
                 /\ \A k \in DOMAIN e.pts : Compat(e.res[k], PosRel(RingOfId(e.polys, e.lid), e.pts[k], Noisy(e)))
-GetObsOk(e, h) == e.lid \in Ids(e.polys) /\ ObsOk(e.res, RingOfId(e.polys, e.lid), e.obs, Noisy(e), h)
+GetObsOk(e, h) == e.lid \in Ids(e.polys) /\ ObsOk(e.res, RingOfId(e.polys, e.lid), Obs(e), Noisy(e), h)
 CPOk(e) == /\ Len(e.res) = Len(e.pts) /\ Bits(e.res)
            /\ \A k \in DOMAIN e.pts : Compat(e.res[k], ContainsPoint3(e.shape, e.pts[k], Noisy(e)))
 ExpOk(e, h) == /\ Len(e.res) = Len(e.pts) /\ Bits(e.res)
@@ -38,20 +42,23 @@ SameRings(e)  == \A k \in DOMAIN e.polys : e.polys[k].id \in Ids(e.base) /\ e.po
 Isolated(e) == "apolys" \in DOMAIN e => NetFn(e.apolys) = NetFn(e.abase)
 RouteOk(e, h) ==
     /\ UniqueIds(e.polys)
-    /\ CASE e.route = "translate_rotate" -> NetFn(e.polys) = NetFn(MoveNet(e.a, e.base))
+    /\ CASE e.route = "translate_rotate" -> NetFn(e.polys) = NetFn(MoveNet(<<Sc(e) * e.a[1], Sc(e) * e.a[2], e.a[3]>>, e.base))
          [] e.route \in {"remove", "remove_nortree"} -> SameRings(e) /\ Ids(e.polys) = Ids(e.base) \ {e.a[1]}
          [] e.route \in {"add_extra", "add_extra_net"} ->
-                NetFn(e.polys) = [i \in Ids(e.base) \cup {ExtraId} |-> IF i = ExtraId THEN RingOf(Extra) ELSE NetFn(e.base)[i]]
+                NetFn(e.polys) = [i \in Ids(e.base) \cup {ExtraId} |-> IF i = ExtraId THEN Scale(RingOf(Extra), Sc(e)) ELSE NetFn(e.base)[i]]
          [] e.route \in {"from_network", "fork_network_cut"} -> /\ SameRings(e)
-                                            /\ MustSet(e.base, LAMBDA P : ShapeRelH(P, e.cut, Noisy(e), h)) \subseteq Ids(e.polys)
-                                            /\ Ids(e.polys) \subseteq MaySet(e.base, LAMBDA P : ShapeRelH(P, e.cut, Noisy(e), h))
+                                            /\ MustSet(e.base, LAMBDA P : ShapeRelH(P, Sh(e, e.cut), Noisy(e), h)) \subseteq Ids(e.polys)
+                                            /\ Ids(e.polys) \subseteq MaySet(e.base, LAMBDA P : ShapeRelH(P, Sh(e, e.cut), Noisy(e), h))
          [] OTHER                        -> NetFn(e.polys) = NetFn(e.base)      \* builders (base = the lanelets handed over), copies, files
 
 Clause(e) ==
   CASE e.op = "route" ->
          IF e.exc # "" THEN "C06.Total/route"
+         ELSE IF e.route = "draw" /\ NetFn(e.polys) # NetFn(e.base) THEN "C06.Route/draw-moves-geometry"
          ELSE IF ~RouteOk(e, 1) THEN Named("C06.Route/" \o e.route, e.route = "from_network" /\ HasDisc(e.cut), RouteOk(e, 4))
-         ELSE IF ~Isolated(e) THEN "C06.Route/isolated" ELSE ""
+         ELSE IF ~Isolated(e) THEN "C06.Route/isolated"
+         (* drawing: every boundary array is bit-identical before and after (e.same, a projection of the driver) and on the lattice *)
+         ELSE IF e.route = "draw" /\ e.same = 0 THEN "C06.Route/draw-moves-geometry" ELSE ""
     [] e.op = "find_by_position" ->
          IF e.exc # "" THEN "C06.Total/find_by_position" ELSE IF ~ByPosOk(e) THEN "C06.ByPosition" ELSE ""
     [] e.op = "find_by_shape" ->
@@ -64,12 +71,12 @@ Clause(e) ==
          ELSE IF ~GetObsOk(e, 1) THEN Named("C06.GetObstacles", AnyDisc(e.obs), GetObsOk(e, 4)) ELSE ""
     [] e.op = "map_obstacles" ->
          IF e.exc # "" THEN "C06.Total/map_obstacles"
-         ELSE IF ~MapOk(e.res, e.polys, e.obs, Noisy(e), 1)
-              THEN Named("C06.MapObstacles", AnyDisc(e.obs), MapOk(e.res, e.polys, e.obs, Noisy(e), 4)) ELSE ""
+         ELSE IF ~MapOk(e.res, e.polys, Obs(e), Noisy(e), 1)
+              THEN Named("C06.MapObstacles", AnyDisc(e.obs), MapOk(e.res, e.polys, Obs(e), Noisy(e), 4)) ELSE ""
     [] e.op = "filter_obstacles" ->
          IF e.exc # "" THEN "C06.Total/filter_obstacles"
-         ELSE IF ~FilterOk(e.res, e.polys, e.obs, Noisy(e), 1)
-              THEN Named("C06.FilterObstacles", AnyDisc(e.obs), FilterOk(e.res, e.polys, e.obs, Noisy(e), 4)) ELSE ""
+         ELSE IF ~FilterOk(e.res, e.polys, Obs(e), Noisy(e), 1)
+              THEN Named("C06.FilterObstacles", AnyDisc(e.obs), FilterOk(e.res, e.polys, Obs(e), Noisy(e), 4)) ELSE ""
     [] e.op = "contains_point" ->
          IF e.exc # "" THEN "C06.Total/contains_point"
          ELSE IF ~CPOk(e) THEN "C06.Shape/contains_point/" \o KindName(e.shape) ELSE ""
